@@ -74,7 +74,7 @@ deriving Repr, DecidableEq
 
 inductive Err where
   | hierarchy      -- XalanDOMException(HIERARCHY_REQUEST_ERR)
-  | nullParent     -- the C++ dereferences m_currentElement == 0 (undefined behaviour)
+  | nullParent     -- (historic: ignorableWhitespace outside the document element before /repo b510409)
   | unbalanced     -- endElement with only the dummy on the stack / endDocument inside an element
 deriving Repr, DecidableEq
 
@@ -136,9 +136,10 @@ def step (st : St) : Ev → Except Err St
     | [] => .error .unbalanced
     | f :: fs => .ok ({ st with stack := fs }.appendNode (.elem f.name f.attrs f.kids .nil))
   | .ignorableWhitespace s =>
-    -- `m_elementStack.empty() == false` is always true after startDocument (dummy entry)
+    -- `if (m_currentElement != 0)` (since /repo b510409; before, the test was `m_elementStack.empty() == false`, always
+    -- true because of the dummy entry, and the handler dereferenced the null current element)
     match st.stack with
-    | [] => .error .nullParent
+    | [] => .ok st
     | _ :: _ => .ok (st.flush.appendNode (.iws s .nil))
   | .pi t d => .ok (st.flush.appendNode (.pi t d .nil))
   | .startElement n a =>
